@@ -7,6 +7,7 @@
 //!   hv selftest determinism [--n N]                              double-run trace-hash comparison for all checks
 //!   hv one <ID> --idx I [--tier T] [--seed N] [--trace]          debug: run one index, print everything
 
+mod alloc;
 mod common;
 mod orch;
 mod props;
@@ -17,6 +18,9 @@ mod simhttp;
 
 use common::*;
 use std::io::{BufRead, Write};
+
+#[global_allocator]
+static GLOBAL: alloc::Counting = alloc::Counting;
 
 pub fn registry() -> Vec<Box<dyn Prop>> {
     props::all()
@@ -138,6 +142,12 @@ fn worker(id: &str, tier: Tier, seed: u64, start: u64, end: u64, stride: u64, de
         }
         humsim::sim::install_panic_hook();
         let scn = p.generate(seed, idx, tier);
+        if p.isolated() {
+            props::c03::ANNOUNCE.store(true, std::sync::atomic::Ordering::SeqCst);
+            let mut o = out.lock();
+            writeln!(o, "A {}", idx).ok();
+            o.flush().ok();
+        }
         let r = p.execute(&scn);
         agg.add(&r);
         if !r.violations.is_empty() || r.harness_error.is_some() {
@@ -153,6 +163,15 @@ fn worker(id: &str, tier: Tier, seed: u64, start: u64, end: u64, stride: u64, de
             }
         }
         idx += stride;
+        if p.isolated() {
+            // a later case may kill this process: hand the totals over after every run
+            let mut o = out.lock();
+            writeln!(o, "S {}", serde_json::to_string(&agg).unwrap()).ok();
+            o.flush().ok();
+            let emitted = agg.samples_emitted;
+            agg = orch::Summary::default();
+            agg.samples_emitted = emitted;
+        }
         if leaked() > RECYCLE_LEAK_THRESHOLD && idx < end {
             let mut o = out.lock();
             writeln!(o, "S {}", serde_json::to_string(&agg).unwrap()).ok();
